@@ -358,8 +358,9 @@ func c10TCP(c *lab.Ctx) {
 		}
 	}
 	rng := c.Rand("tcp")
-	rounds := c.Pick(4, 20)
-	per := c.Pick(12, 25)
+	// thorough-tier volume per worker reduced at the end of the last session (it was 20 rounds of 8 x 25), see DESIGN 7.15
+	rounds := c.Pick(4, 6)
+	per := c.Pick(12, 15)
 	var sessions, served, refused int64
 	for round := 0; round < rounds; round++ {
 		var wg sync.WaitGroup
